@@ -28,8 +28,10 @@ FUNCTIONS = ['AbstractLinearOperator.as_matrix', 'AdditionOperator.as_matrix', '
              'BlockRow/BlockDiagonal/BlockColumnOperator.as_matrix', 'AbstractRavelOrReshapeOperator.as_matrix', 'SymmetricBandToeplitzOperator.as_matrix', 'every mv']
 BOUNDS = {'quick': 'every catalogue leaf of 4 families (in_size <= 12) + leaf.T + closed-form leaf.I + seeded 120 composites (products, sums, blocks)',
           'thorough': 'same + up to 4 000 composites per family (all with in_size <= 14)'}
+BOUNDS['quick'] += '; complex-valued family: 12 leaves with symbolic real and imaginary parts (dense, diagonal, broadcast diagonal, scalar, index, reshape, move-axis, pytree), their lazy/own transposes, 14 composites and their transposes, complex scalars a, b'
+BOUNDS['thorough'] += '; complex-valued family: all products and sums of 7 leaves and their transposes'
 STUBS = ['as_matrix() of the lazy inverse (jnp.linalg.inv -> LU primitives) is not encodable: not claimed']
-ASSUMPTIONS = ['real arithmetic', 'inverted scalars != 0']
+ASSUMPTIONS = ['exact real arithmetic (complex-valued family: exact arithmetic in Q(i))', 'inverted scalars != 0']
 RULE = 'case = operator expression; non-trivial = symbolic parameters or structure-changing operator; distinct keys'
 BUDGET = {'quick': 400, 'thorough': 2400}
 CLOSED_INV = {'vec': ['k', 'D', 'I3'], 'mat': ['k', 'D0', 'D1', 'D2', 'Mv', 'Mn'], 'stokes': ['R', 'Rs', 'k', 'Dq', 'Id'], 'tree': ['k', 'D']}
@@ -46,6 +48,8 @@ def cases(tier, seed):
         rnd.shuffle(comp)
         progs += ([e for e in c01.gen_programs(fam, 'thorough', seed) if not _has_lazy(fam, e)][:4000] if tier == 'thorough' else comp[:30])
         out += [(fam, e) for e in progs]
+    from .. import cplx
+    out += [('cplx', e) for e in cplx.expressions(tier)]
     return out
 
 
@@ -77,6 +81,9 @@ def run_case(key, twin=False):
     if key and key[0] == 'twin':
         return run_case(key[1], twin=True)
     from furax._base.core import AbstractLinearOperator
+    if key[0] == 'cplx':
+        from .. import cplx
+        return cplx.check_dense(_tuplify(key[1]), twin)
     fam, e = key
     bld = Builder(fam)
     try:
@@ -147,6 +154,12 @@ def replay(key, model, info):
     key = _tuplify(key)
     fam, e = key
     kind = info.get('kind')
+    if fam == 'cplx':
+        from .. import cplx
+        if kind in ('shape', 'raises'):
+            r = cplx.check_dense(e)
+            return r['status'] == 'violation', r.get('what', 'ok')
+        return cplx.replay(e, model, kind, twin)
     if kind == 'shape':
         r = run_case(key)
         return r['status'] == 'violation', r.get('what', 'ok')
